@@ -10,6 +10,11 @@ mod c05;
 mod c06;
 mod c07;
 mod c08;
+mod c12;
+mod c12_world;
+mod c13;
+mod c16;
+mod c16_world;
 mod c18;
 mod c19;
 
@@ -64,6 +69,9 @@ fn main() {
         "C06" => c06::run(tier),
         "C07" => c07::run(tier),
         "C08" => c08::run(tier),
+        "C12" => c12::run(tier),
+        "C13" => c13::run(tier),
+        "C16" => c16::run(tier),
         "C18" => c18::run(tier),
         "C19" => c19::run(tier),
         _ => {
@@ -89,6 +97,9 @@ fn main() {
         "C06" => c06::replay(&sub, &v["witness"]),
         "C07" => c07::replay(&sub, &v["witness"]),
         "C08" => c08::replay(&sub, &v["witness"]),
+        "C12" => c12::replay(&sub, &v["witness"]),
+        "C13" => c13::replay(&sub, &v["witness"]),
+        "C16" => c16::replay(&sub, &v["witness"]),
         "C18" => c18::replay(&sub, &v["witness"]),
         "C19" => c19::replay(&sub, &v["witness"]),
         _ => Err(format!("no replay registered for {}", prop)),
